@@ -88,6 +88,26 @@ T.update({
  "C19-4": (["C19"], "", "a number first written unsigned and later as an i32.const immediate in the same process"),
 })
 
+# round 3 (fresh agents, two per property for eight properties)
+T.update({
+ "C01-5": (["C01"], "", "an == with a float operand whose 0/1 result is an operand of an int division with an inexact quotient that is scaled or stored in a float"),
+ "C01-6": (["C01"], "", "a float-typed division both of whose operand VALUES are Python ints at run time (zero-initialised float locals, ++/--, + - * among them) with an inexact quotient"),
+ "C02-5": (["C02"], "", "optimize on; an array or struct variable assigned as a whole and read by the very next instruction (b = a; b[0] = 7;)"),
+ "C02-6": (["C02"], "", "optimize on; one name declared in two sibling bare blocks of the same basic block, the second without initialiser and read before it is written"),
+ "C03-5": (["C03"], "first missed; caught after the call generator made one member of an overload family exported (the exported one is called by its raw name, its sibling by the mangled one)", "an exported function sharing its name with a non-exported overload, and a call for which the non-exported one is the better match"),
+ "C03-6": (["C03"], "", "direct recursion as the whole expression of a return, where a later argument reads a parameter that an earlier argument position rebinds"),
+ "C04-5": (["C04"], "", "matrix / scalar with a divisor whose reciprocal is inexact, on a component where the double rounding shows"),
+ "C04-6": (["C04"], "", "a vector constructor with two or more arguments whose first argument is a vector that is read as a whole afterwards"),
+ "C05-5": (["C05"], "", "one name declared in sibling scopes with different run-time shapes, the second declaration without initialiser, executed after the first"),
+ "C05-6": (["C05"], "first missed; caught after the corpus got functions with empty bodies ({}), called and exported, and C05 started to EXECUTE the corpus entries", "a function definition whose body has zero statements that is called or invoked"),
+ "C14-5": (["C14"], "first missed (on the unchanged compiler every program with __optional dies in the parser, so no generator produced one); caught after a list of programs the compiler MAY reject (wholelang.MAYBE_ENTRIES: __optional with omitted arguments, forward declarations) was added: nothing is demanded of a rejection, everything of an acceptance", "a function with a trailing __optional parameter and a call that omits it"),
+ "C14-6": (["C14"], "first missed; caught after the verified checker also ran on every corpus module after a pickle store/load round trip, at both optimisation levels", "optimize on; a module whose optimiser removed a value registered before a basic block, stored and loaded again"),
+ "C15-5": (["C15"], "first missed; caught after the history generator got void helpers and exported void setters that end without return, and a stratum of long histories (450-700 operations on one VM)", "more than 400 activations, over the life of one VM, of functions that end without a return"),
+ "C15-6": (["C15"], "first missed; caught after the history generator got wrappers that do not write a global themselves but call a helper that does (store; call wrapper; load in one block)", "optimize on; a store to a global, a call and a load of that global in one basic block, the write to the global happening two calls deep"),
+ "C16-5": (["C16"], "", "an overload set split between a module and a module it imports, the call best matching the imported overload while the local one is convertible"),
+ "C16-6": (["C16"], "first missed; caught after a fifth of the cases named their modules by paths that share the last component (geom/util, color/util, util, a/b/lib, a/lib)", "two distinct imported modules whose names have the same last path component"),
+})
+
 for sid, (caught, note, needs) in sorted(T.items()):
     d = os.path.join(ROOT, sid)
     notes = open(os.path.join(d, "notes.md")).read()
